@@ -299,7 +299,7 @@ func (x *Exec) storeGet(st *State, h *storeHandle, key T) T {
 	s := st.Worlds[h.World][h.Name]
 	opt := T{S: fmt.Sprintf("(select %s %s)", s.S, k.S), So: "OptS"}
 	isSome := T{S: fmt.Sprintf("((_ is some) %s)", opt.S), So: SBool}
-	r := Ite(isSome, T{S: fmt.Sprintf("(someval %s)", opt.S), So: SString}, T{S: `""`, So: SString})
+	r := app(SString, "getraw", opt)
 	r.Nil = Not(isSome).S
 	return r
 }
